@@ -146,6 +146,7 @@ pub fn substring(ctx: &Ctx, _rng: &mut Rng, o: &mut Out) {
   let mut opts: Vec<Option<i32>> = vec![None];
   opts.extend((-bound..=bound).map(Some));
   let globals = GlobalRules::default();
+  let mut cases = 0usize;
   for st in &opts {
     for en in &opts {
       let mut yaml = String::from(
@@ -175,9 +176,45 @@ pub fn substring(ctx: &Ctx, _rng: &mut Rng, o: &mut Out) {
             }
           }
         });
+        // oracle: the documented meaning (Python slice t[s:e] on characters), computed here
+        // independently of the implementation and of the model
+        let want = py_slice(t, *st, *en);
+        cases += 1;
+        if r != json!(want) {
+          let multibyte = t.chars().any(|c| c.len_utf8() > 1);
+          o.oracle(
+            "substring-python-slice",
+            false,
+            json!({"fp": format!("substring != python slice multibyte={multibyte} negative={}", st.unwrap_or(0) < 0 || en.unwrap_or(0) < 0),
+                   "text": t, "startChar": st, "endChar": en, "got": r, "want": want}),
+          );
+        }
         o.op("substring", json!({"t": t, "s": st, "e": en}), r);
       }
     }
+  }
+  o.oracle("substring-python-slice", true, json!({"cases": cases}));
+}
+
+/// Python's `t[s:e]` on characters
+fn py_slice(t: &str, s: Option<i32>, e: Option<i32>) -> String {
+  let cs: Vec<char> = t.chars().collect();
+  let n = cs.len() as i64;
+  let norm = |x: Option<i32>, dft: i64| -> i64 {
+    match x {
+      None => dft,
+      Some(v) => {
+        let v = v as i64;
+        let v = if v < 0 { v + n } else { v };
+        v.clamp(0, n)
+      }
+    }
+  };
+  let (a, b) = (norm(s, 0), norm(e, n));
+  if a >= b {
+    String::new()
+  } else {
+    cs[a as usize..b as usize].iter().collect()
   }
 }
 
